@@ -30,6 +30,9 @@ def gen_response(rng, status, reason, nparts):
         headers.append((name, value))
     if rng.chance(1, 12):
         headers.insert(rng.below(len(headers) + 1), (rng.choice(["Content-Length", "content-length"]), rng.choice(["0", "4", "17", "999999", "abc", ""])))
+    if rng.chance(1, 10):
+        # a caller header that spells a framing header's name in another letter case is an ordinary header for the library
+        headers.insert(rng.below(len(headers) + 1), (rng.choice(["content-type", "CONTENT-TYPE", "Content-type", "content-range", "CONTENT-RANGE"]), rng.choice(["text/css", "image/png", "multipart/byteranges; boundary=other", "bytes 0-1/2", "x"])))
     parts = []
     if nparts == 1:
         kind, body = gen_body(rng)
